@@ -1,6 +1,7 @@
 (* C03 / C13 driver.  Input lines (TAB-separated):
      P <src> <halt_at> <fuel> <prog> <cmds> <vars> [<script text, used by the Rust side only>]
         -> <OK|ERR|FUEL> <detail> <line> <src> <log> <vars>      run of the model
+           (kind Q = the same for the model; the Rust side runs it with the runner's default Env)
      I <src> <n> <prog> <cmds> <vars>
         -> CFG <pc> <halt flag> - <log> <vars>  |  NONE           un-halted machine after n iterations
      F <src> <n> <maxsteps> <prog> <cmds> <vars>
@@ -82,7 +83,7 @@ let show_err = function
 
 let () = iter_lines (fun line ->
   match fields line with
-  | "P" :: src :: halt_at :: fuel :: prog :: cmds :: vars :: _ ->
+  | ("P" | "Q") :: src :: halt_at :: fuel :: prog :: cmds :: vars :: _ ->
       let src = opt_of_field src in
       let h = if halt_at = "N" then None else Some (nat_of_int (int_of_string halt_at)) in
       (match s_run (nat_of_int (int_of_string fuel)) h (parse_prog src prog) (parse_vars vars) (parse_cmds cmds) with
